@@ -635,7 +635,9 @@ def _index_conds(idxs, dims):
             if isinstance(i, SBool):
                 raise NotModelled('boolean scalar as index')
             inb = (i >= -n) & (i < n)
-            if not bool(inb):
+            if core.OPT['lazy_bounds']:
+                core.lazy_assert(inb.t, 'IndexError: index out of bounds for axis %d with size %d' % (d, n))
+            elif not bool(inb):
                 raise IndexError('index out of bounds for axis %d with size %d' % (d, n))
             conds.append([((i == j) | (i == j - n)).t for j in range(n)])
         else:
